@@ -402,3 +402,14 @@ NEUTRALS = [
     M("payload call with keywords", _B, "state = self.build_checkpoint_state(\n                samples, iterations, beta, min_step=min_step\n            )", "state = self.build_checkpoint_state(\n                samples=samples, iteration=iterations, beta=beta, min_step=min_step\n            )"),
     M("history copied with another helper", _B, "history_copy = copy.deepcopy(self.history)", "history_copy = copy.copy(self.history)\n        history_copy = copy.deepcopy(history_copy)"),
 ]
+
+# functions the property is anchored in (auto-mutant sweep of the thorough tier)
+ANCHORS = [
+    'aspire.samplers.smc.base:SMCSampler.sample',
+    'aspire.samplers.smc.base:SMCSampler.build_checkpoint_state',
+    'aspire.samplers.base:Sampler.build_checkpoint_state',
+    'aspire.samplers.smc.base:SMCSampler._checkpoint_extra_state',
+    'aspire.samplers.smc.base:SMCSampler.restore_from_checkpoint',
+    'aspire.samplers.base:Sampler.restore_from_checkpoint',
+    'aspire.aspire:Aspire.resume_from_file',
+]
